@@ -1,0 +1,16 @@
+//go:build verif
+
+package fsstore
+
+// VerifHook, when set, is called between the filesystem operations of a write
+// with the name of the point reached and the paths involved.  Returning an error
+// makes the store behave as if the next operation had failed with that error.
+// Only compiled with the "verif" build tag.
+var VerifHook func(point string, paths ...string) error
+
+func hook(point string, paths ...string) error {
+	if h := VerifHook; h != nil {
+		return h(point, paths...)
+	}
+	return nil
+}
